@@ -1271,7 +1271,7 @@ class PsiContour:
             self.startInd += 1
         if index <= self.endInd:
             self.endInd += 1
-        if self.endInd < 0 and index > len(self) + self.endInd:
+        if self.endInd < 0 and index >= len(self) + self.endInd:
             self.endInd -= 1
 
     def insertFindPosition(self, point):
